@@ -370,6 +370,16 @@ pub fn cap_memory(bytes: u64) {
 /// sequence survives this directory: Ok(()) or Err(description). The caller's process must be
 /// single-threaded at this point (the workers are).
 pub fn probe_boot(dir: &str) -> Result<(), String> {
+    // the probe works on a copy: starting a node changes its directory (an invalid op-log is cleaned, ...)
+    let copy = format!("{}-probe", dir.trim_end_matches('/'));
+    let _ = std::fs::remove_dir_all(&copy);
+    crate::crash::copy_dir(std::path::Path::new(dir), std::path::Path::new(&copy));
+    let r = probe_boot_in_place(&copy);
+    let _ = std::fs::remove_dir_all(&copy);
+    r
+}
+
+fn probe_boot_in_place(dir: &str) -> Result<(), String> {
     unsafe {
         let pid = libc::fork();
         if pid < 0 {
